@@ -78,8 +78,8 @@ theorem init_transfers_lookup (cols : List ColDef) (k : String) (hk : k ∈ cols
         · exact hk
       simp [alookup, h, ih this]
 
-theorem init_verbatim (tn : String) (refl : Bool) (s : Schema) (k : String) (hk : k ∈ s.cols.map (·.name)) :
-    Verbatim k (State.init tn refl s) := by
+theorem init_verbatim (tn : String) (refl : Bool) (s : Schema) (k : String) (hk : k ∈ s.cols.map (·.name))
+    (pr : List (List String) := []) : Verbatim k (State.init tn refl s pr) := by
   refine ⟨{ expr := some (.col k) }, ?_, rfl⟩
   simp only [State.init]
   exact init_transfers_lookup s.cols k hk
@@ -180,6 +180,9 @@ theorem survives_applyOp {k : String} {st st' : State} {o : BatchOp} (hs : Survi
     simp only [State.applyOp] at hok
     cases hok
     unfold State.existingTypeConst; split <;> exact ⟨tr, e, hl, he, hb⟩
+  | tableComment =>
+    simp only [State.applyOp] at hok
+    cases hok; exact ⟨tr, e, hl, he, hb⟩
 
 theorem verbatim_applyOp {k : String} {st st' : State} {o : BatchOp} (hs : Verbatim k st)
     (ht : touches k o = false) (hr : retypes k o = false) (hok : st.applyOp o = .ok st') : Verbatim k st' := by
@@ -235,6 +238,9 @@ theorem verbatim_applyOp {k : String} {st st' : State} {o : BatchOp} (hs : Verba
     simp only [State.applyOp] at hok
     cases hok
     unfold State.existingTypeConst; split <;> exact ⟨tr, hl, he⟩
+  | tableComment =>
+    simp only [State.applyOp] at hok
+    cases hok; exact ⟨tr, hl, he⟩
 
 theorem survives_applyOps {k : String} (ops : List BatchOp) : ∀ (st st' : State), Survives k st →
     (∀ o ∈ ops, touches k o = false) → st.applyOps ops = .ok st' → Survives k st' := by
@@ -314,6 +320,9 @@ theorem index_kept_applyOp {n : String} {ix : Index} {st st' : State} {o : Batch
     simp only [State.applyOp] at hok
     cases hok
     unfold State.existingTypeConst; split <;> exact h
+  | tableComment =>
+    simp only [State.applyOp] at hok
+    cases hok; exact h
 
 theorem index_kept_applyOps {n : String} {ix : Index} (ops : List BatchOp) : ∀ (st st' : State),
     alookup n st.indexes = some ix → (∀ o ∈ ops, dropsIndex n o = false) → st.applyOps ops = .ok st' →
@@ -449,6 +458,9 @@ theorem named_kept_applyOp {n : String} {c : Const} {st st' : State} {o : BatchO
         intro e; subst e; simp [mentionsConst, hp] at hm
       simp only; rw [alookup_adel_ne _ hne]; exact h
     · exact h
+  | tableComment =>
+    simp only [State.applyOp] at hok
+    cases hok; exact h
 
 theorem named_kept_applyOps {n : String} {c : Const} (ops : List BatchOp) : ∀ (st st' : State),
     alookup n st.named = some c → (∀ o ∈ ops, ∀ k ∈ c.cols, touches k o = false) →
@@ -718,6 +730,9 @@ theorem pkInv_applyOp {c : Const} {st st' : State} {o : BatchOp} (hinv : PkInv s
         simp only [adel, List.mem_filter] at hp'
         exact hinv.keys p hp'.1 hpk
     · exact hinv
+  | tableComment =>
+    simp only [State.applyOp] at hok
+    cases hok; exact hinv
 
 /-- `_grab_table_elements` files exactly one PRIMARY KEY constraint object (the table's own) -/
 theorem grab_pkInv (refl : Bool) (c : Const) : ∀ (cs : List Const) (acc : List (String × Const) × List Const),
